@@ -179,7 +179,7 @@ def adversary_script(p, role):
                 for r in adv.request_post_handshake_auth():
                     yield r
         elif adv.heartbeat_can_send and adv.heartbeat_supported:
-            for r in adv.send_heartbeat_request(b"hb-payload", 16):
+            for r in adv.write_heartbeat(b"hb-payload", 16):
                 yield r
         r = yield from drive.aread(adv, None, 1)
         yield from drive.awrite(adv, b"adv-bye")
